@@ -37,6 +37,8 @@ class Option:
         self.dest = dest
         self.values: Optional[Set] = None   # finite domain or None (free)
         self.free = False                   # free-form option represented by its default only
+        self.numeric = False
+        self.boundary: Set = set()
         self.where = ''
 
     def __repr__(self):
@@ -130,6 +132,8 @@ def option_table(ctx) -> Dict[str, Option]:
                         opt.values.add(default)
                     elif not required:
                         opt.values = None
+            tp = kw.get('type')
+            opt.numeric = isinstance(tp, ast.Name) and tp.id in ('int',) and isinstance(default, int) and not isinstance(default, bool)
             if opt.values is None and default is not UNKNOWN and not required:
                 # a free-form option (custom type=, number, string): the one value that is certainly accepted is its default
                 opt.values = {default}
@@ -146,6 +150,24 @@ def option_table(ctx) -> Dict[str, Option]:
                     prev.values |= opt.values
             else:
                 out[dest] = opt
+    # numeric options compared with constants somewhere in the builders: the default plus one accepted value on the other side of each comparison
+    for m in cli_modules(ctx):
+        for c in ast.walk(m.tree):
+            if isinstance(c, ast.Compare) and len(c.ops) == 1 and isinstance(c.left, ast.Attribute) and isinstance(c.left.value, ast.Name) \
+                    and c.left.value.id in ('arg', 'args') and isinstance(c.comparators[0], ast.Constant) and isinstance(c.comparators[0].value, int) \
+                    and not isinstance(c.comparators[0].value, bool):
+                o = out.get(c.left.attr)
+                if o is None or not o.free or not o.numeric:
+                    continue
+                k = c.comparators[0].value
+                op = c.ops[0]
+                extra = {ast.Gt: k + 1, ast.GtE: k, ast.Eq: k, ast.NotEq: k, ast.Lt: k, ast.LtE: k + 1}.get(type(op))
+                if extra is not None:
+                    o.boundary.add(extra)
+    for o in out.values():
+        if o.free and o.numeric and o.boundary:
+            o.values = set(o.values) | o.boundary
+            o.free = False
     return out
 
 
